@@ -169,7 +169,7 @@ def rooms(
         dtype=int,
     )
 
-    if len(y_splits) != len(set(y_splits)):
+    if np.any(np.diff(y_splits) < 2):
         raise ValueError(
             f'insufficient height ({shape.height}) for layout ({layout})'
         )
@@ -181,7 +181,7 @@ def rooms(
         dtype=int,
     )
 
-    if len(x_splits) != len(set(x_splits)):
+    if np.any(np.diff(x_splits) < 2):
         raise ValueError(
             f'insufficient width ({shape.width}) for layout ({layout})'
         )
@@ -543,7 +543,7 @@ def memory_rooms(
         dtype=int,
     )
 
-    if len(y_splits) != len(set(y_splits)):
+    if np.any(np.diff(y_splits) < 2):
         raise ValueError(
             f'insufficient shape.height ({shape.height}) for layout ({layout})'
         )
@@ -555,7 +555,7 @@ def memory_rooms(
         dtype=int,
     )
 
-    if len(x_splits) != len(set(x_splits)):
+    if np.any(np.diff(x_splits) < 2):
         raise ValueError(
             f'insufficient shape.width ({shape.width}) for layout ({layout})'
         )
